@@ -91,6 +91,7 @@ def c02(ctx):
     quick = ctx.tier == 'quick'
     runs = [{'module': 'MC_C02', 'cfg': 'MC_C02_quick.cfg', 'workers': 8}] if quick else \
            [{'module': 'MC_C02', 'cfg': 'MC_C02_thorough.cfg', 'workers': 12, 'timeout': 3000, 'heap': '16g'}]
+    runs.append({'module': 'EduceWide', 'cfg': 'Wide_C02.cfg', 'workers': 2})   # wide shapes: 12 fields per variant, 258 variants
 
     def calls(r):
         return ['run_eq::<%s, _>(&mut out, &dom, &all_pairs);' % r.name, 'run_eq_same::<%s, _>(&mut out, &dom);' % r.name]
@@ -107,8 +108,11 @@ def c03(ctx):
     quick = ctx.tier == 'quick'
     runs = [{'module': 'MC_C03', 'cfg': 'MC_C03_quick.cfg', 'workers': 8}] if quick else \
            [{'module': 'MC_C03', 'cfg': 'MC_C03_thorough.cfg', 'workers': 12, 'timeout': 3000, 'heap': '16g'}]
+    runs.append({'module': 'EduceWide', 'cfg': 'Wide_C03.cfg', 'workers': 2})   # wide shapes: 12 fields per variant, 258 variants
     # the pair instance: enums whose variants are all rich (what one variant leaves behind for the next)
     runs.append({'module': 'MC_C03', 'cfg': 'MC_C03_pair.cfg', 'workers': 8, 'timeout': 1800})
+    # explicit ranks at isize::MIN and isize::MIN + 1, where they meet the implicit ones
+    runs.append({'module': 'MC_C03', 'cfg': 'MC_C03_edge.cfg', 'workers': 8, 'timeout': 1800})
 
     def calls(r):
         out = []
@@ -134,6 +138,7 @@ def c05(ctx):
     quick = ctx.tier == 'quick'
     runs = [{'module': 'MC_C05', 'cfg': 'MC_C05_quick.cfg', 'workers': 8}] if quick else \
            [{'module': 'MC_C05', 'cfg': 'MC_C05_thorough.cfg', 'workers': 12, 'timeout': 3000, 'heap': '16g'}]
+    runs.append({'module': 'EduceWide', 'cfg': 'Wide_C05.cfg', 'workers': 2})   # wide shapes: 12 fields per variant, 258 variants
 
     def calls(r):
         return ['run_hashes::<%s, _>(&mut out, &dom);' % r.name]
@@ -181,6 +186,7 @@ def c07(ctx):
     quick = ctx.tier == 'quick'
     runs = [{'module': 'MC_C07', 'cfg': 'MC_C07_quick.cfg', 'workers': 8}] if quick else \
            [{'module': 'MC_C07', 'cfg': 'MC_C07_thorough.cfg', 'workers': 12, 'timeout': 3000, 'heap': '16g'}]
+    runs.append({'module': 'EduceWide', 'cfg': 'Wide_C07.cfg', 'workers': 2})   # wide shapes: 12 fields per variant, 258 variants
 
     def calls(r):
         return ['run_clone::<%s, _>(&mut out, &dom);' % r.name]
@@ -198,8 +204,11 @@ class DebugRender(TypeRender):
     def __init__(self, idx, cfg, prop, **kw):
         super().__init__(idx, cfg, prop, **kw)
         from render import NAME_POOLS, pick
-        # ordinary identifiers only (raw identifiers are outside "byte-identical to derive(Debug)")
-        self.pool = [None, NAME_POOLS[2], NAME_POOLS[3]][pick([0, 0, 1, 2], idx, 'names')]
+        # ordinary identifiers only (raw identifiers are outside "byte-identical to derive(Debug)"); some of them
+        # non-ASCII -- for the fields and, in a third of the configurations, for the type itself
+        self.pool = [None, NAME_POOLS[2], NAME_POOLS[3], ['é', 'ñu', 'имя', '名', 'ångström']][pick([0, 0, 1, 2, 3], idx, 'names')]
+        if 'name' not in kw and pick([0, 0, 1], idx, 'typename') == 1:
+            self.name = 'Tä%dß' % idx
         if not self.has_params():
             # the #[derive(Debug)] twin is rendered from the same item text: keep it free of educe attributes
             self.bystander = None
@@ -244,6 +253,7 @@ def c06(ctx):
     quick = ctx.tier == 'quick'
     runs = [{'module': 'MC_C06', 'cfg': 'MC_C06_quick.cfg', 'workers': 8}] if quick else \
            [{'module': 'MC_C06', 'cfg': 'MC_C06_thorough.cfg', 'workers': 12, 'timeout': 3000, 'heap': '16g'}]
+    runs.append({'module': 'EduceWide', 'cfg': 'Wide_C06.cfg', 'workers': 2})   # wide shapes: 12 fields per variant, 258 variants
 
     def calls(r):
         twin = 'None' if r.has_params() else 'Some(&|v: usize, x: &[i8]| fmt_both(&d%d::make(0, v, x)))' % r.idx
@@ -327,6 +337,7 @@ def c09(ctx):
     quick = ctx.tier == 'quick'
     runs = [{'module': 'MC_C09', 'cfg': 'MC_C09_quick.cfg', 'workers': 8}] if quick else \
            [{'module': 'MC_C09', 'cfg': 'MC_C09_thorough.cfg', 'workers': 12, 'timeout': 3000, 'heap': '16g'}]
+    runs.append({'module': 'EduceWide', 'cfg': 'Wide_C09.cfg', 'workers': 2})   # 12-field variants, markers at two-digit positions
 
     def calls(r):
         if 'DerefMut' in r.traits:
@@ -941,28 +952,7 @@ def c13(ctx):
         neg.append(("#[educe(Into(%s), Into(%s))] struct T<'a, T: Tr>(u8, &'a T);" % (ty, ty), 'the same Into target twice on the type', {'dup_target': ty, 'pos': 'type'}))
         neg.append(("#[educe(Into(%s), Into(%s, bound = false))] enum T { V1(u8) }" % (ty, ty), 'the same Into target twice on the type', {'dup_target': ty, 'pos': 'type2'}))
         neg.append(("#[educe(Into(%s))] struct T<'a, T: Tr> { #[educe(Into(%s), Into(%s))] f: u8, g: &'a T }" % (ty, ty, ty), 'the same Into target twice on a field', {'dup_target': ty, 'pos': 'field'}))
-    # refused configurations enumerated by the per-trait models (SealBad / NEG lines)
-    st = dict(ctx.coverage)
-    neg_sources = [('MC_C06', DebugRender, 'nothing to print / rename on a positional field'),
-                   ('MC_C08', DefaultRender, 'default designation missing, duplicated or misplaced'),
-                   ('MC_C09', TypeRender, 'Deref / DerefMut designation missing or duplicated'),
-                   ('MC_C10', TypeRender, 'Into designation missing or ambiguous')]
-    if not quick:
-        neg_sources.append(('MC_C03', TypeRender, 'rank given twice among compared fields'))
-    n_model_neg = 0
-    for module, cls, why in neg_sources:
-        negs = model_check_tagged(ctx, [{'module': module, 'cfg': module + '_corpus.cfg', 'workers': 8}], 'NEG')
-        st['states'] += ctx.coverage['states']
-        st['transitions'] += ctx.coverage['transitions']
-        st['mc_runs'] = st['mc_runs'] + ctx.coverage['mc_runs']
-        for k, c in enumerate(negs):
-            r = cls(k + 1, c, 'C13neg', name='T')
-            neg.append((r.item(derive=False), why + ' (model-enumerated)', c))
-            n_model_neg += 1
-    ctx.coverage['states'] = st['states']
-    ctx.coverage['transitions'] = st['transitions']
-    ctx.coverage['mc_runs'] = st['mc_runs']
-    ctx.coverage['model_enumerated_negatives'] = n_model_neg
+    neg += model_negatives(ctx, quick)
     for j, (text, why, cfg) in enumerate(neg):
         rid = 'n%d' % j
         requests.append({'id': rid, 'text': text})
@@ -1016,6 +1006,38 @@ def c13(ctx):
                     {'input': requests[-1]['text'], 'expected': 'err'}],
     })
     ctx.assumptions += X_ASSUMPTIONS
+
+
+def model_negatives(ctx, quick):
+    """refused configurations enumerated by the per-trait models (SealBad / NEG lines): (text, class, cfg)"""
+    neg = []
+    st = dict(ctx.coverage)
+    neg_sources = [('MC_C06', DebugRender, 'nothing to print / rename on a positional field'),
+                   ('MC_C08', DefaultRender, 'default designation missing, duplicated or misplaced'),
+                   ('MC_C09', TypeRender, 'Deref / DerefMut designation missing or duplicated'),
+                   ('MC_C10', TypeRender, 'Into designation missing or ambiguous')]
+    neg_sources.append(('MC_C03:edge', TypeRender, 'explicit rank equal to another field\'s implicit rank (isize::MIN + position)'))
+    if not quick:
+        neg_sources.append(('MC_C03', TypeRender, 'rank given twice among compared fields'))
+    n_model_neg = 0
+    for module, cls, why in neg_sources:
+        cfgname = module + '_corpus.cfg'
+        if ':' in module:
+            module, variant = module.split(':')
+            cfgname = '%s_%s_corpus.cfg' % (module, variant)
+        negs = model_check_tagged(ctx, [{'module': module, 'cfg': cfgname, 'workers': 8}], 'NEG')
+        for k_ in ('states', 'transitions'):
+            st[k_] = st.get(k_, 0) + ctx.coverage[k_]
+        st['mc_runs'] = st.get('mc_runs', []) + ctx.coverage['mc_runs']
+        for k, c in enumerate(negs):
+            r = cls(k + 1, c, 'C13neg', name='T')
+            neg.append((r.item(derive=False), why + ' (model-enumerated)', c))
+            n_model_neg += 1
+    ctx.coverage['states'] = st['states']
+    ctx.coverage['transitions'] = st['transitions']
+    ctx.coverage['mc_runs'] = st['mc_runs']
+    ctx.coverage['model_enumerated_negatives'] = n_model_neg
+    return neg
 
 
 def negative_corpora(ctx, quick):
@@ -1191,7 +1213,7 @@ def c17(ctx):
             rid = 'r%d' % i
             requests.append({'id': rid, 'text': raw_ident_variant(injected_item(r))})
             meta[rid] = {'mode': 'total'}
-    neg = negative_corpora(ctx, quick)
+    neg = negative_corpora(ctx, quick) + model_negatives(ctx, quick)
     for j, (text, why, cfg) in enumerate(neg):
         rid = 'n%d' % j
         requests.append({'id': rid, 'text': text})
@@ -1771,6 +1793,15 @@ def c18(ctx):
     all_inputs = sorted(inputs.items())
     ref_exe = xchan.build(ctx)
     ref = {r['id']: r for r in xchan.expand(ref_exe, [{'id': t, 'text': t} for t, _ in all_inputs])}
+    # inputs the all-features build refuses (the hand-listed structural negatives of C13): a subset build must refuse
+    # them too, as long as every trait they name is enabled (otherwise "unsupported trait" is the expected answer anyway)
+    import re as _re
+    negs_all = []
+    for text, why, _cfg in negative_corpora(ctx, True):
+        named = set(_re.findall(r'\b(Debug|Clone|Copy|PartialEq|Eq|PartialOrd|Ord|Hash|Default|DerefMut|Deref|Into)\b', text))
+        negs_all.append((text, frozenset(named)))
+    neg_ref = {r['id']: r['outcome'] for r in xchan.expand(ref_exe, [{'id': t, 'text': t} for t, _ in negs_all])}
+    negs_all = [(t, n) for t, n in negs_all if neg_ref.get(t) == 'err' and n]
     if quick:
         exp_subsets = [[f] for f in feats] + [['PartialEq', 'Eq'], ['Clone', 'Copy'], ['PartialOrd', 'Ord'], sorted(rnd.sample(feats, 5))]
     else:
@@ -1803,8 +1834,15 @@ def c18(ctx):
                         if t:
                             dis_text['dis:%s:%s:%s:%s' % (en, f, site['pos'], site['shape'])] = t
             reqs += [{'id': k, 'text': t} for k, t in sorted(dis_text.items())]
+            myneg = [t for t, named in negs_all if named <= set(sub)]
+            if len(myneg) > cap:
+                myneg = rl.sample(myneg, cap)
+            neg_text = {'neg:%d' % k: t for k, t in enumerate(myneg)}
+            reqs += [{'id': k, 'text': t} for k, t in sorted(neg_text.items())]
             for r in xchan.expand1(exe, reqs):
-                if str(r['id']).startswith('dis:'):
+                if str(r['id']).startswith('neg:'):
+                    out.append({'op': 'refuse', 'features': sub, 'input': neg_text[r['id']], 'outcome': r['outcome']})
+                elif str(r['id']).startswith('dis:'):
                     text = dis_text.get(r['id']) or '#[educe(%s)] struct T { a: u8 }' % r['id'][4:]
                     out.append({'op': 'disabled', 'features': sub, 'input': text, 'outcome': r['outcome'],
                                 'unsupported': 'unsupported trait' in (r.get('err') or '')})
@@ -1891,12 +1929,13 @@ SHADOW_ENV = ('#[allow(dead_code, non_camel_case_types, non_snake_case, unused)]
               'pub struct Vec; pub struct String; pub struct Formatter; pub struct PhantomData; pub enum Tri { Some, None, Ok, Err, Less, Equal, Greater } pub use self::Tri::*; '
               'pub trait Clone {} pub trait Copy {} pub trait Default {} pub trait Debug {} pub trait PartialEq {} pub trait Eq {} pub trait PartialOrd {} pub trait Ord {} '
               'pub trait Hash {} pub trait Hasher {} pub trait Into {} pub trait From {} pub trait Deref {} pub trait DerefMut {} pub trait Sized_ {} '
-              'pub fn drop() {} pub fn size_of() {} pub mod fmt {} pub mod cmp {} pub mod hash {} pub mod mem {} pub mod slice {} pub mod marker {} }')
+              'pub fn drop() {} pub fn size_of() {} pub mod fmt {} pub mod cmp {} pub mod hash {} pub mod mem {} pub mod slice {} pub mod marker {} '
+              'pub mod core {} pub mod std {} pub mod alloc {} }')
 
 
 SHADOW_NAMES = ['Option', 'Result', 'Ordering', 'Box', 'Vec', 'String', 'Formatter', 'PhantomData', 'Some', 'None', 'Ok', 'Err', 'Less', 'Equal', 'Greater',
                 'Clone', 'Copy', 'Default', 'Debug', 'PartialEq', 'Eq', 'PartialOrd', 'Ord', 'Hash', 'Hasher', 'Into', 'From', 'Deref', 'DerefMut',
-                'drop', 'size_of', 'fmt', 'cmp', 'hash', 'mem', 'slice', 'marker']
+                'drop', 'size_of', 'fmt', 'cmp', 'hash', 'mem', 'slice', 'marker', 'core', 'std', 'alloc']
 
 
 def hostile_item(h, n):
@@ -1949,6 +1988,16 @@ def hostile_item(h, n):
         else:
             item = ('#[derive(Educe)] #[educe(%s)] enum %s%s { #[educe(Default)] %s { %s%s: u8, xb: u16%s }, Vb(u8, u16%s), Vc }'
                     % (traits, tname, gen, v1, ma, fa, extra_named, extra_tuple))
+    elif ts == 'intoabs':
+        if pos == 'method':
+            return None
+        traits = 'Into(::core::primitive::u16), Into(::core::primitive::u64)'
+        if kind == 'struct':
+            item = ('#[derive(Educe)] #[educe(%s)] struct %s%s { #[educe(Into(::core::primitive::u16))] %s: u8, #[educe(Into(::core::primitive::u64))] xb: u16%s }'
+                    % (traits, tname, gen, fa, extra_named))
+        else:
+            item = ('#[derive(Educe)] #[educe(%s)] enum %s%s { %s { #[educe(Into(::core::primitive::u16), Into(::core::primitive::u64))] %s: u8, xb: ::core::primitive::bool%s }, '
+                    'Vb(#[educe(Into(::core::primitive::u16), Into(::core::primitive::u64))] u8, ::core::primitive::bool%s) }' % (traits, tname, gen, v1, fa, extra_named, extra_tuple))
     else:
         traits = 'Copy, Clone, Deref, DerefMut, Into(u16)'
         if pos == 'method':
